@@ -1,7 +1,8 @@
-From Mds Require Import Common.ExtractBase Stree.StreeModel Stree.CursorModel.
+From Mds Require Import Common.ExtractBase Stree.StreeModel Stree.CursorModel Stree.CursorBig.
 Require Extraction.
 Require Import ExtrOcamlBasic.
 Extraction "cursor_model.ml" CursorModel.tree_cursor CursorModel.tree_root CursorModel.clone
   CursorModel.valid CursorModel.key CursorModel.has_next CursorModel.has_prev CursorModel.has_left
   CursorModel.has_right CursorModel.has_parent CursorModel.step CursorModel.cinorder
-  CursorModel.cinorder_all CursorModel.observe CursorModel.run StreeModel.inorder StreeModel.get base_types.
+  CursorModel.cinorder_all CursorModel.observe CursorModel.run StreeModel.inorder StreeModel.get
+  CursorBig.big_new CursorBig.big_add CursorBig.big_remove CursorBig.big_root CursorBig.big_len base_types.
